@@ -93,8 +93,8 @@ def scripts_from_lts(ctx: Ctx, lts, rng):
     scripts = []
     for (evalex, pin_on, cnt), es in sorted(groups.items()):
         rng.shuffle(es)
-        if ctx.quick and cnt not in (0, 11):
-            es = es[: len(es) // 3]
+        if ctx.quick:
+            es = es[: len(es) // 2] if cnt in (0, 11) else es[: len(es) // 4]
         stay = [e for e in es if e["cnt2"] == e["cnt"]]
         move = [e for e in es if e["cnt2"] != e["cnt"]]
         host = {"T": ht.TRUSTED_REP, "U": ht.UNTRUSTED_REP}
@@ -130,7 +130,7 @@ def scripts_code_to_spec(ctx: Ctx, rng):
     for evalex, pin_on in cfgs:
         steps = [[g, h, i] for i, (h, g) in enumerate(itertools.product(ht.DEBUG_HOSTS, gate))]
         scripts.append({"evalex": evalex, "pin_on": pin_on, "steps": steps, "src": "hosts"})
-    hosts_full = ht.DEBUG_HOSTS if not q else ["sub.localhost", "localhost.evil.com", rng.choice(ht.DEBUG_HOSTS)]
+    hosts_full = ht.DEBUG_HOSTS if not q else ["localhost.evil.com", rng.choice(ht.DEBUG_HOSTS)]
     for evalex, pin_on in cfgs:
         for h in hosts_full:
             # requests that do not move the counter first, the others afterwards (the judge follows either way)
@@ -213,7 +213,7 @@ def judge_scripts(ctx: Ctx, scripts, kind="dbg"):
 MODELS = [("MCHostTrust", "MCH_quick", None), ("MCDebugger", "MCD_fixed", None)]
 MODELS_THOROUGH = [("MCHostTrust", "MCH_thorough", None), ("MCHostTrust", "MCH_lists2", None), ("MCHostTrust", "MCH_big", None)]
 BROKEN = [("MCHostTrust", "MCH_orig", "ImplMeetsContract"),   # host_is_trusted as pinned (F14, F15)
-          ("MCDebugger", "MCD_orig", "LockoutSticks"),        # the byte counter wraps (F21)
+          ("MCDebugger", "MCD_orig", "LockoutSticks"),        # the byte counter wraps (F40)
           ("MCDebugger", "MCD_mut_nohost", "ContractHolds"),
           ("MCDebugger", "MCD_mut_nosecret", "ContractHolds"),
           ("MCDebugger", "MCD_mut_nopin", "ContractHolds")]
